@@ -953,6 +953,13 @@ impl Store {
                 continue;
             }
 
+            // the atc index pads or truncates the tag value to a fixed width and has
+            // an entry for every 'd' tag of an event, so we have to compare the
+            // identifier (the value of the first 'd' tag) exactly
+            if event.tags()?.get_value(b"d") != Some(addr.d.as_slice()) {
+                continue;
+            }
+
             return Ok(Some(event));
         }
 
@@ -1059,10 +1066,13 @@ impl Store {
         for result in iter {
             let (_key, offset) = result?;
 
-            // Our index doesn't have Kind embedded, so we have to check it
+            // Our index doesn't have Kind embedded, so we have to check it. It also
+            // pads or truncates the tag value and has an entry for every 'd' tag, so
+            // the identifier (the value of the first 'd' tag) is compared exactly.
             let matches = {
                 let event = self.get_event_by_offset(offset)?;
                 event.kind() == addr.kind
+                    && event.tags()?.get_value(b"d") == Some(addr.d.as_slice())
             };
 
             if matches {
